@@ -97,6 +97,9 @@ func (c *Ctx) Known(id string) bool {
 	return true
 }
 
+// KnownHits returns how often Known(id) returned true for this case.
+func (c *Ctx) KnownHits(id string) int { return c.known[id] }
+
 // Sub is one executable sub-check of a property.
 type Sub[C any] struct {
 	Name     string
@@ -245,6 +248,33 @@ func writeCaseFile(path, sub string, c any, errText string) {
 	}
 }
 
+var (
+	curFile *os.File
+	curBuf  []byte
+)
+
+// precommit records the case about to run with a single pwrite: 8-byte
+// little-endian length followed by the replay JSON (the driver decodes it when
+// the process dies without reporting a failure).
+func precommit(path, sub string, c any) {
+	if curFile == nil {
+		f, err := os.OpenFile(path, os.O_CREATE|os.O_RDWR|os.O_TRUNC, 0o644)
+		if err != nil {
+			return
+		}
+		curFile = f
+	}
+	cb, err := json.Marshal(c)
+	if err != nil {
+		return
+	}
+	b, _ := json.Marshal(ReplayFile{Property: property, Sub: sub, Case: cb})
+	curBuf = append(curBuf[:0], 0, 0, 0, 0, 0, 0, 0, 0)
+	binary.LittleEndian.PutUint64(curBuf, uint64(len(b)))
+	curBuf = append(curBuf, b...)
+	_, _ = curFile.WriteAt(curBuf, 0)
+}
+
 func safeCheck[C any](f func(*Ctx, C) error, ctx *Ctx, c C) (err error) {
 	defer func() {
 		if x := recover(); x != nil {
@@ -320,12 +350,12 @@ func Run[C any](t *testing.T, s Sub[C]) {
 	curPath := ""
 	failPath := ""
 	if outDir != "" {
-		curPath = filepath.Join(outDir, fmt.Sprintf("current-%d.json", shard))
+		curPath = filepath.Join(outDir, fmt.Sprintf("current-%d.bin", shard))
 		failPath = filepath.Join(outDir, fmt.Sprintf("fail-%d-%s.json", shard, s.Name))
 	}
 	one := func(c C, enumerated bool) error {
 		if s.Precommit && curPath != "" {
-			writeCaseFile(curPath, s.Name, c, "")
+			precommit(curPath, s.Name, c)
 		}
 		ctx := &Ctx{}
 		err := safeCheck(s.Check, ctx, c)
